@@ -201,7 +201,10 @@ Loose(b) ==
 Diff(out, b) ==
   LET e == Expect(b)  l == Loose(b)  full == CsFull(b) IN
   IF e.ok = 0 \/ ("ok" \in DOMAIN out /\ out.ok = 0)
-  THEN IF "ok" \in DOMAIN out /\ out.ok = e.ok THEN {} ELSE {"ok"}
+  THEN IF "ok" \in DOMAIN out /\ out.ok = e.ok THEN {} ELSE
+       \* a frame that carries an interpreted payload and is refused had no payload variant selected for it: that is the
+       \* dispatch table's (C10) as much as acceptance's (C02)
+       {"ok"} \cup (IF e.ok = 1 /\ DFof(b) \in {17, 18, 20, 21} THEN {"variant_rejected"} ELSE {})
   ELSE    {k \in DOMAIN e : k \notin DOMAIN out \/ out[k] # e[k]}
      \cup {k \in DOMAIN l : k \notin DOMAIN out \/ out[k] \notin l[k]}
      \cup (IF full = <<>> THEN {}
@@ -217,6 +220,7 @@ Owner(f) ==
               "hst", "hdg", "ast", "as"} -> "C07"
     [] f \in {"cs", "cat", "tcl"} -> "C08"
     [] f \in {"id", "es", "st28"} -> "C09"
+    [] f = "variant_rejected" -> "C10"
     [] f \in {"raw", "rsv5", "vraw22", "vrk", "bdsid"} -> "I"          \* opaque bytes: no listed property; reported as drift of the model
     [] OTHER -> "C10"
 
